@@ -91,8 +91,6 @@ def gen_case(rnd):
     else:
         nu = rnd.choice([1, 1, 1, 2, 2, 3])
         us = rnd.sample(UNITS, nu)
-        if "decade" in us and "year" in us:
-            us.remove("year")
         parts = []
         for u in us:
             if u in ("second", "minute", "hour") and rnd.random() < 0.12:
